@@ -292,3 +292,111 @@ Section SchedProofs.
     apply (Hgen jobs []); [reflexivity|intros x []|exists j0; split; assumption].
   Qed.
 End SchedProofs.
+
+(* ---------------- C05: after any interruption, a restart converges: from a state
+   in which every job is idle or done (what a restart leaves after resetting
+   the unfinished ones) there is a continuation that completes every job,
+   starts no job that was already done, and runs every other job once. *)
+Section Converge.
+  Variable job : Type.
+  Variable jeqb : job -> job -> bool.
+  Hypothesis jeqb_spec : forall a b, jeqb a b = true <-> a = b.
+  Variable deps : job -> list job.
+
+  Notation get := (get job jeqb).
+  Notation run := (run job jeqb deps).
+
+  Fixpoint finish (jobs : list job) (s : state job) : list (event job) :=
+    match jobs with
+    | [] => []
+    | j :: r =>
+        if is_done job jeqb s j then finish r s
+        else EStart j :: EDone j :: finish r (set job (set job s j Running) j Done)
+    end.
+
+  Lemma get_set2_same s j : get (set job (set job s j Running) j Done) j = Done.
+  Proof. apply (get_set_same job jeqb jeqb_spec). Qed.
+  Lemma get_set2_other s j k : k <> j -> get (set job (set job s j Running) j Done) k = get s k.
+  Proof.
+    intros H. rewrite (get_set_other job jeqb jeqb_spec) by exact H.
+    apply (get_set_other job jeqb jeqb_spec). exact H.
+  Qed.
+
+  Lemma finish_runs : forall jobs pre s,
+    topo job deps (pre ++ jobs) ->
+    (forall x, In x pre -> get s x = Done) ->
+    (forall j, In j jobs -> get s j = Idle \/ get s j = Done) ->
+    exists s', run s (finish jobs s) = Some s' /\
+               (forall j, In j jobs -> get s' j = Done) /\
+               (forall j, get s j = Done -> get s' j = Done) /\
+               (forall j, get s j = Done -> count_starts job jeqb j (finish jobs s) = 0) /\
+               (forall j, count_starts job jeqb j (finish jobs s) <= 1) /\
+               quiet job (finish jobs s).
+  Proof.
+    induction jobs as [|j jobs IH]; intros pre s Htopo Hpre Hst.
+    - exists s. cbn. repeat split; auto. intros j [].
+    - cbn [finish]. destruct (is_done job jeqb s j) eqn:Ed.
+      + unfold is_done in Ed. apply jstate_eqb_eq in Ed.
+        destruct (IH (pre ++ [j]) s) as (s' & Hr & Hall & Hmono & Hcnt & Hle & Hq).
+        * rewrite <- app_assoc. exact Htopo.
+        * intros x Hx. apply in_app_or in Hx. destruct Hx as [Hx|[<-|[]]]; [apply Hpre; exact Hx|exact Ed].
+        * intros k Hk. apply Hst. right. exact Hk.
+        * exists s'. split; [exact Hr|]. split; [|repeat split; assumption].
+          intros k [<-|Hk]; [apply Hmono; exact Ed|apply Hall; exact Hk].
+      + assert (Hidle : get s j = Idle).
+        { destruct (Hst j (or_introl eq_refl)) as [H|H]; [exact H|].
+          unfold is_done in Ed. rewrite H in Ed. discriminate. }
+        set (s2 := set job (set job s j Running) j Done).
+        destruct (IH (pre ++ [j]) s2) as (s' & Hr & Hall & Hmono & Hcnt & Hle & Hq).
+        * rewrite <- app_assoc. exact Htopo.
+        * intros x Hx. apply in_app_or in Hx. destruct Hx as [Hx|[<-|[]]].
+          -- destruct (jeq_dec job jeqb jeqb_spec x j) as [->|Hn]; [apply get_set2_same|].
+             unfold s2. rewrite get_set2_other by exact Hn. apply Hpre. exact Hx.
+          -- apply get_set2_same.
+        * intros k Hk. destruct (jeq_dec job jeqb jeqb_spec k j) as [->|Hn].
+          -- right. apply get_set2_same.
+          -- unfold s2. rewrite get_set2_other by exact Hn. apply Hst. right. exact Hk.
+        * exists s'.
+          assert (Hen : enabled job jeqb deps s (EStart j) = true).
+          { cbn. rewrite Hidle. cbn. apply forallb_forall. intros d Hd.
+            unfold is_done. rewrite (Hpre d (Htopo pre j jobs eq_refl d Hd)). reflexivity. }
+          split.
+          { rewrite (run_cons job jeqb deps). rewrite Hen.
+            rewrite (run_cons job jeqb deps).
+            assert (Hen2 : enabled job jeqb deps (apply job s (EStart j)) (EDone j) = true).
+            { cbn. rewrite jeqb_refl by exact jeqb_spec. reflexivity. }
+            rewrite Hen2. exact Hr. }
+          split.
+          { intros k [<-|Hk]; [apply Hmono; apply get_set2_same|apply Hall; exact Hk]. }
+          split.
+          { intros k Hk. apply Hmono. destruct (jeq_dec job jeqb jeqb_spec k j) as [->|Hn];
+              [apply get_set2_same|unfold s2; rewrite get_set2_other by exact Hn; exact Hk]. }
+          split.
+          { intros k Hk. unfold count_starts. cbn [filter is_start].
+            destruct (jeqb k j) eqn:Ekj.
+            - apply jeqb_spec in Ekj. subst k. rewrite Hidle in Hk. discriminate.
+            - apply Hcnt. unfold s2. rewrite get_set2_other; [exact Hk|].
+              intros ->. rewrite jeqb_refl in Ekj by exact jeqb_spec. discriminate. }
+          split.
+          { intros k. unfold count_starts. cbn [filter is_start].
+            destruct (jeqb k j) eqn:Ekj.
+            - apply jeqb_spec in Ekj. subst k. cbn [length].
+              pose proof (Hcnt j (get_set2_same s j)) as H0. unfold count_starts in H0. rewrite H0. lia.
+            - apply Hle. }
+          { unfold quiet. cbn. exact Hq. }
+  Qed.
+
+  Theorem restart_converges : forall jobs s,
+    topo job deps jobs ->
+    (forall j, In j jobs -> get s j = Idle \/ get s j = Done) ->
+    exists tr s', run s tr = Some s' /\
+      (forall j, In j jobs -> get s' j = Done) /\
+      (forall j, get s j = Done -> count_starts job jeqb j tr = 0) /\
+      (forall j, count_starts job jeqb j tr <= 1) /\ quiet job tr.
+  Proof.
+    intros jobs s Ht Hs.
+    destruct (finish_runs jobs [] s Ht (fun x (H : In x []) => match H with end) Hs)
+      as (s' & Hr & Hall & _ & Hcnt & Hle & Hq).
+    exists (finish jobs s), s'. repeat split; assumption.
+  Qed.
+End Converge.
